@@ -12,7 +12,7 @@ Qed.
 
 Lemma dec_enc_gout o : dec_gout (enc_gout o) = o.
 Proof.
-  destruct o as [|[x|]|a b|l|b].
+  destruct o as [|[x|]|a b|l|b|b]; [| | | | | |destruct b; reflexivity].
   - reflexivity.
   - change (RGet (Some (Z.to_nat (Z.of_nat x))) = RGet (Some x)). rewrite Nat2Z.id. reflexivity.
   - reflexivity.
